@@ -47,7 +47,7 @@ end
 def Component.vids (c : Component) : List Vid := c.vertices.map (·.vid)
 
 /-- all Vids of a query, component by component -/
-def allVids (ir : IRQuery) : List Vid := (subComps ir.rootComponent).flatMap Component.vids
+def IRQuery.allVids (ir : IRQuery) : List Vid := (subComps ir.rootComponent).flatMap Component.vids
 
 /-- `indexed_query.vids[&vid]` followed by `component.vertices[&vid]`. -/
 def locateIn (vid : Vid) : List Component → Option (Component × IRVertex)
@@ -632,7 +632,7 @@ def filterR {α : Type} (f : α → R Bool) : List α → R (List α)
 def Component.eids (c : Component) : List Eid := c.edges.map (·.eid) ++ c.folds.map (·.eid)
 
 /-- all Eids of a query, component by component -/
-def allEids (ir : IRQuery) : List Eid := (subComps ir.rootComponent).flatMap Component.eids
+def IRQuery.allEids (ir : IRQuery) : List Eid := (subComps ir.rootComponent).flatMap Component.eids
 
 /-- `indexed_query.eids[&eid]` (`IndexedQuery` refuses an IR in which an Eid occurs twice, so the
 search order never matters on accepted queries). -/
